@@ -121,10 +121,40 @@ def runModelRt (ts : List String) : String :=
     | none => "bad-case"
   | _ => "bad-case"
 
+/-- `cw hold <k> pk <m> … tbl <n> …`: concurrent writers; the first packet holds `writeLock` when the second
+writer starts, so the lock order is packet 0, then the others: an `rt` case read byte by byte. -/
+def cwToRt (ts : List String) : Option (List String) :=
+  match ts with
+  | "hold" :: _ :: rest =>
+    let pkPart := rest.takeWhile (· != "tbl")
+    let tblPart := rest.dropWhile (· != "tbl")
+    some (["rt", "eof"] ++ tblPart ++ pkPart ++ ["ch", "0"])
+  | _ => none
+
+/-- `rtcap <ty> <comp> <size>`: one packet with a body of `size` bytes followed by a heartbeat.  The
+body is too large for this driver's list representation, so the harness compares the bytes and
+reports a summary; what the summary must be is the conclusion of `C01_main` for a well-formed
+packet (`size ≤ MaxPacketBodySize`): the reader returns exactly that packet, then the trailer. -/
+def capExpected (ts : List String) : Option String :=
+  match ts with
+  | [ty, _, size] =>
+    match ty.toNat?, size.toNat? with
+    | some t, some n =>
+      if t < 64 ∧ ¬ Gen.packet.Type.IsHeartbeat t ∧ n ≤ Gen.constants.MaxPacketBodySize then some s!"ok {n} same trailer 1" else none
+    | _, _ => none
+  | _ => none
+
 /-- `rtw <side> …` is an `rt` case whose chunks were real WebSocket messages: the model does not
 care which transport produced the chunks (`C01_main` quantifies over all chunkings). -/
 def runModel (ts : List String) : String :=
   match ts with
+  | "rtcap" :: rest => (capExpected rest).getD "unconstrained"
+  | "cw" :: rest =>
+    match cwToRt rest with
+    | some rt =>
+      let full := runModelRt rt
+      " ".intercalate ((full.splitOn " ").takeWhile (· != "wire"))
+    | none => "bad-case"
   | "rtw" :: _ :: rest =>
     -- no `wire`/`wc` part in the WebSocket observation: compare the decoded side only
     let full := runModelRt ("rt" :: rest)
@@ -142,6 +172,14 @@ def runHoldsRt (caseToks obsToks : List String) : String :=
 
 def runHolds (caseToks obsToks : List String) : String :=
   match caseToks with
+  | "rtcap" :: rest =>
+    match capExpected rest with
+    | some e => boolStr (" ".intercalate obsToks == e)
+    | none => boolStr (obsToks.head? != some "panic" && obsToks.head? != some "timeout")
+  | "cw" :: rest =>
+    match cwToRt rest with
+    | some rt => runHoldsRt rt obsToks
+    | none => "bad-case"
   | "rtw" :: _ :: rest => runHoldsRt ("rt" :: rest) obsToks
   | _ => runHoldsRt caseToks obsToks
 
